@@ -86,7 +86,7 @@ func checkC04(c *Ctx, r *Report) {
 		}
 		r.Check(len(bad) == 0, "W-GF", key, "", "written after init by "+strings.Join(bad, "; "))
 	}
-	r.Note("not decided: Euclid / Chien / Forney over run-time values (that decoding restores every correctable word); polynomial arithmetic of GenericGFPoly beyond the field operations")
+	r.Note("Euclid / Chien / Forney and the GenericGFPoly arithmetic are decided by folding on complete small domains (S-RSWHOLE); not decided: larger (k, r) and the 1024- / 4096-element fields beyond their tables (the same program text)")
 }
 
 func checkGFConstants(c *Ctx, r *Report) {
